@@ -361,64 +361,82 @@ example : Eui.format 48 0x001b774954fd none = .ok "00-1B-77-49-54-FD".toList := 
 
 /-! ## is_iab / iab on receivers of either version -/
 
-/-- `is_iab()` / `iab` as the code computes them for a receiver of EITHER version: bits 24 and up
-    of the value against the IAB base OUIs, `iab` = bits 12 and up -/
-theorem iab_any_version (ver v : Nat) :
-    (isIabOf ver v = true ↔ (v / 2 ^ 24 = 0x0050c2 ∨ v / 2 ^ 24 = 0x40d855)) ∧
-    (isIabOf ver v = true → iabOf ver v = .ok (some (v / 2 ^ 12))) ∧
-    (isIabOf ver v = false → iabOf ver v = .ok none) := iab_split v
+/-- `is_iab()` / `iab` of an EUI-48 receiver: bits 24 and up of the value against the IAB base OUIs,
+    `iab` = the top 36 bits -/
+theorem iab_split48 (v : Nat) :
+    (isIabOf 48 v = true ↔ (v / 2 ^ 24 = 0x0050c2 ∨ v / 2 ^ 24 = 0x40d855)) ∧
+    (isIabOf 48 v = true → iabOf 48 v = .ok (some (v / 2 ^ 12))) ∧
+    (isIabOf 48 v = false → iabOf 48 v = .ok none) := iab_split v
 
-/-- **EUI-64 receivers.**  FULL STATEMENT the property asks for ("split the value at the standard
-    bit positions": the OUI of an EUI-64 is its top 24 bits, the 36-bit IAB its top 36 bits):
-    `isIabOf 64 v = true ↔ v / 2^40 ∈ {0x0050c2, 0x40d855}` and then `iabOf 64 v = some (v / 2^28)`.
-    That statement is FALSE for the code (see `iab64_counterexample`): `is_iab` shifts by 24 and
-    `iab` by 12 whatever the version.  What is proved is what the code does on an EUI-64: it
-    answers True exactly for the values below 2^48 whose bits 24..47 are an IAB base OUI — and
-    the OUI field (`oui`, top 24 bits) of such a value is below 2^7, so it is never an IAB base
-    OUI; conversely an EUI-64 whose OUI is an IAB base OUI is never reported as an IAB. -/
-theorem iab_split64_partial (v : Nat) (hv : v < 2 ^ 64) :
-    (isIabOf 64 v = true ↔ v < 2 ^ 48 ∧ (v / 2 ^ 24 = 0x0050c2 ∨ v / 2 ^ 24 = 0x40d855)) ∧
-    (isIabOf 64 v = true → oui 64 v = .ok (v / 2 ^ 40) ∧ v / 2 ^ 40 < 2 ^ 7) ∧
-    (∀ o, oui 64 v = .ok o → iabEuiValues.contains o = true → isIabOf 64 v = false) := by
-  have h1 := (iab_split v).1
-  have ho := ((oui_ei_split v).2 hv).1
-  refine ⟨?_, ?_, ?_⟩
-  · show isIab v = true ↔ _
-    rw [h1]; constructor
-    · intro h; refine ⟨?_, h⟩; omega
-    · intro h; exact h.2
+/-- **EUI-64 receivers** ("split the value at the standard bit positions": the OUI of an EUI-64 is
+    its top 24 bits, the 36-bit IAB its top 36 bits).  This is the behaviour of the repaired code
+    (fix 14211a2); the pinned code shifted by 24 / 12 whatever the version, so that
+    `EUI(0x0050c2000123, version=64).is_iab()` was True (its OUI is 00-00-00) and an EUI-64 under the
+    IAB base OUI 00-50-C2 was never reported (finding F17). -/
+theorem iab_split64 (v : Nat) :
+    (isIabOf 64 v = true ↔ (v / 2 ^ 40 = 0x0050c2 ∨ v / 2 ^ 40 = 0x40d855)) ∧
+    (isIabOf 64 v = true → iabOf 64 v = .ok (some (v / 2 ^ 28))) ∧
+    (isIabOf 64 v = false → iabOf 64 v = .ok none) := by
+  have hiff : isIabOf 64 v = true ↔ (v / 2 ^ 40 = 0x0050c2 ∨ v / 2 ^ 40 = 0x40d855) := by
+    simp [isIabOf, iabEuiValues, Nat.shiftRight_eq_div_pow]
+  refine ⟨hiff, ?_, ?_⟩
   · intro h
-    have := h1.1 h
-    refine ⟨ho, ?_⟩; omega
-  · intro o hoo hc
-    rw [ho] at hoo
-    injection hoo with hoo
-    subst hoo
-    rw [iab_values] at hc
-    have hc' : v / 2 ^ 40 = 0x0050c2 ∨ v / 2 ^ 40 = 0x40d855 := by simpa using hc
-    cases hb : isIabOf 64 v with
-    | false => rfl
-    | true =>
-      have := h1.1 hb
-      omega
+    have hc : iabEuiValues.contains (v >>> 40) = true := by simpa [isIabOf] using h
+    have h' : iabEuiValues.contains ((v >>> 28) >>> 12) = true := by
+      have : (v >>> 28) >>> 12 = v >>> 40 := by
+        simp [Nat.shiftRight_eq_div_pow, Nat.div_div_eq_div_mul]
+      rw [this]; exact hc
+    simp only [iabOf, hc, if_true, splitIabMac, h']
+    simp [Nat.shiftRight_eq_div_pow]
+    rfl
+  · intro h
+    have hc : iabEuiValues.contains (v >>> 40) = false := by simpa [isIabOf] using h
+    unfold iabOf
+    rw [if_neg (by decide : ¬ (64 : Nat) = 48)]
+    simp only [hc, Bool.false_eq_true, if_false]
+    rfl
 
-/-- concrete witnesses of the gap: 00-50-C2-FF-FE-00-01-23 (OUI 00-50-C2) is not reported as an
-    IAB, 00-00-00-50-C2-00-01-23 (OUI 00-00-00) is, and the EUI-64 form of an IAB MAC is never
-    reported as an IAB -/
-theorem iab64_counterexample :
-    (oui 64 0x0050c2fffe000123 = .ok 0x0050c2 ∧ isIabOf 64 0x0050c2fffe000123 = false) ∧
-    (oui 64 0x0050c2000123 = .ok 0 ∧ isIabOf 64 0x0050c2000123 = true ∧ iabOf 64 0x0050c2000123 = .ok (some 0x0050c2000)) ∧
-    (∀ v e, v < 2 ^ 48 → isIabOf 48 v = true → eui64 48 v = .ok (64, e) → isIabOf 64 e = false) := by
-  refine ⟨⟨by rfl, by rfl⟩, ⟨by rfl, by rfl, by rfl⟩, ?_⟩
+/-- `is_iab()` agrees with `oui` for both versions: an identifier is an IAB address exactly when its
+    OUI field is one of the IAB base OUIs -/
+theorem iab_iff_oui (ver v : Nat) (hver : ver = 48 ∨ ver = 64) (hv : v < 2 ^ ver) :
+    isIabOf ver v = true ↔ ∃ o, oui ver v = .ok o ∧ iabEuiValues.contains o = true := by
+  rcases hver with rfl | rfl
+  · have ho := ((oui_ei_split v).1 hv).1
+    constructor
+    · intro h
+      refine ⟨v / 2 ^ 24, ho, ?_⟩
+      have := (iab_split v).1.1 h
+      rw [iab_values]; rcases this with e | e <;> simp [e]
+    · rintro ⟨o, hoo, hc⟩
+      rw [ho] at hoo; injection hoo with hoo; subst hoo
+      rw [iab_values] at hc
+      have hc' : v / 2 ^ 24 = 0x0050c2 ∨ v / 2 ^ 24 = 0x40d855 := by simpa using hc
+      exact (iab_split v).1.2 hc'
+  · have ho := ((oui_ei_split v).2 hv).1
+    constructor
+    · intro h
+      refine ⟨v / 2 ^ 40, ho, ?_⟩
+      have := (iab_split64 v).1.1 h
+      rw [iab_values]; rcases this with e | e <;> simp [e]
+    · rintro ⟨o, hoo, hc⟩
+      rw [ho] at hoo; injection hoo with hoo; subst hoo
+      rw [iab_values] at hc
+      have hc' : v / 2 ^ 40 = 0x0050c2 ∨ v / 2 ^ 40 = 0x40d855 := by simpa using hc
+      exact (iab_split64 v).1.2 hc'
+
+/-- the EUI-64 form of an IAB MAC is an IAB address too (same OUI field), and the witnesses of the old
+    defect now read as the standard says -/
+theorem iab_eui64_of_mac :
+    (∀ v e, v < 2 ^ 48 → isIabOf 48 v = true → eui64 48 v = .ok (64, e) → isIabOf 64 e = true) ∧
+    (isIabOf 64 0x0050c2fffe000123 = true ∧ iabOf 64 0x0050c2fffe000123 = .ok (some 0x0050c2fff)) ∧
+    (isIabOf 64 0x0050c2000123 = false ∧ iabOf 64 0x0050c2000123 = .ok none) := by
+  refine ⟨?_, ⟨by rfl, by rfl⟩, ⟨by rfl, by rfl⟩⟩
   intro v e hv hi he
   rw [(eui64_spec v).1 hv] at he
   have he' : e = v / 2 ^ 24 * 2 ^ 40 + 0xFFFE * 2 ^ 24 + v % 2 ^ 24 := by
     injection he with he; injection he with _ he; exact he.symm
   have h1 := ((iab_split v).1).1 hi
-  cases hb : isIabOf 64 e with
-  | false => rfl
-  | true =>
-    have := ((iab_split e).1).1 hb
-    omega
+  apply (iab_split64 e).1.2
+  omega
 
 end NV.C08
